@@ -258,7 +258,7 @@ func init() {
 func init() {
 	properties["C18"] = Property{
 		Level: "exploration",
-		Rule:  "one case = (logical request of a generated history over the /api/loc/* family, rendering) with renderings {query parameters with /api, without /api, with a /v1.0 prefix, form body (with and without /api), JSON body (also under /v1.0/api), YAML body sniffed at the operation URI, /api/json envelope and /api/yaml and ProcessRequest with the uri spelled /api.., without /api, with a version prefix, element of /api/sys/util/batch under each spelling, and the whole history as one batch with the spelling varied per element}, each rendering on its own fresh engine, compared (status and normalised JSON result) with service.ProcessRequest called directly; arguments include strings that need URL/JSON/YAML escaping (in values, ids and location names); the histories include the one-parameter operations admin/create, clear, delete, size and rules/list; the direct calls are also compared with a sys.System twin; plus negative cases (each required parameter missing, ill-typed parameters, a uri that is not a string, unknown URI, failing operations) through every rendering that can express them; non-trivial = the rendering is not the direct call and an argument needs escaping, or the case is negative; distinct by (seed, history, request index, rendering); ids with quote and backslash; rules with a throwing condition and serial rules with a failing action (failing events); negatives with empty JSON-typed parameters; renderings without Content-Length (chunked JSON body, form, envelope); ids padded with blanks; facts/replace with and without id and the take switch of facts/search in the histories; negatives: take on a read-only location, util/js without / with ill-typed code; rules whose action returns NaN / Inf (listed finding c18.unrenderable-result)",
+		Rule:  "one case = (logical request of a generated history over the /api/loc/* family, rendering) with renderings {query parameters with /api, without /api, with a /v1.0 prefix, form body (with and without /api), JSON body (also under /v1.0/api), YAML body sniffed at the operation URI, /api/json envelope and /api/yaml and ProcessRequest with the uri spelled /api.., without /api, with a version prefix, element of /api/sys/util/batch under each spelling, and the whole history as one batch with the spelling varied per element}, each rendering on its own fresh engine, compared (status and normalised JSON result) with service.ProcessRequest called directly; arguments include strings that need URL/JSON/YAML escaping (in values, ids and location names); the histories include the one-parameter operations admin/create, clear, delete, size and rules/list; the direct calls are also compared with a sys.System twin; plus negative cases (each required parameter missing, ill-typed parameters, a uri that is not a string, unknown URI, failing operations) through every rendering that can express them; non-trivial = the rendering is not the direct call and an argument needs escaping, or the case is negative; distinct by (seed, history, request index, rendering); ids with quote and backslash; rules with a throwing condition and serial rules with a failing action (failing events); negatives with empty JSON-typed parameters; renderings without Content-Length (chunked JSON body, form, envelope); ids padded with blanks; facts/replace with and without id and the take switch of facts/search in the histories; negatives: take on a read-only location, util/js without / with ill-typed code; rules whose action returns NaN / Inf (listed finding c18.unrenderable-result); JSON bodies beginning with white space (a blank; a newline and tab indentation); events/retry with a fresh work document in the histories (System twin call) and with a throwing rule among the negatives",
 		Floor: [2]int{300, 3000},
 		Assumptions: []string{"generated request ids and timing fields are normalised away", "`set` of /api/loc/parents is rendered in its canonical JSON-string form"},
 		Stages: []Stage{{Name: "encodings", Pkg: "./mon/c18", Procs: 2, Batches: [2]int{4, 8}, TimeoutS: [2]int{900, 3600}}},
